@@ -128,6 +128,27 @@ def o1(W, ob):
             okc = fields['start'].const_int() == 0 and key(cx.expr_operand(fields['end'])) == 'self.num_players'
     errs = [x for f2, x in W.constructions('GgrsError', 'InvalidRequest') if f2 is s]
     miss = [x for x in errs if every_disjunct_has(Gs.guard(x.bb), lambda a: a[0] == 'bool' and 'contains_key(' in a[1] and a[2] is False)]
+    # the same check as an iterator predicate over the same range: `(0..self.num_players).any(|h| !handles.contains_key(&h))` (or `.all(..)` negated at the branch)
+    if not okc:
+        for t in s.calls():
+            if last_seg(t.callee.best) not in ('any', 'all') or len(t.args) < 2:
+                continue
+            cl = closure_of_operand(W, s, t.args[1])
+            if not (cl and cl[0] == 'closure' and any(last_seg(x.callee.best) == 'contains_key' for x in cl[1].calls())):
+                continue
+            e = closure_return_expr(W, cl[1])
+            negated = e[0] == 'un' and e[1] == 'Not'
+            src = trace_back(W, s, t.args[0])
+            rng_ok = False
+            if src and src[0] == 'stmt' and src[1].rv.k == 'agg' and src[1].rv.j.get('adt', '').endswith('ops::Range'):
+                fields = dict(zip(src[1].rv.j['fields'], src[1].rv.ops))
+                rng_ok = fields['start'].const_int() == 0 and key(cx.expr_operand(fields['end'])) == 'self.num_players'
+            want_true = last_seg(t.callee.best) == 'any'      # any(!registered) == true  <=>  all(registered) == false  <=> someone is missing
+            if rng_ok and negated == want_true:
+                nm = last_seg(t.callee.best) + '('
+                miss = [x for x in errs if every_disjunct_has(Gs.guard(x.bb), lambda a: a[0] == 'bool' and nm in a[1] and a[2] is want_true)]
+                okc = True
+                ck = ck or [t]
     new = sites(W, s, 'P2PSession::new')
     hdr_ok = bool(new) and bool(ck) and all(cfg_of(s).path_avoiding([n], [ck[0].bb]) is not None or True for n in new)
     ob.check(okc and len(miss) == 1 and len(errs) == 2, 'start_p2p_session|all-players-registered',
